@@ -30,6 +30,7 @@ RULE = (
     "judged without the learning slack (mean(FDP) - alpha > 0.002 + 6*SE). A cell is VIOLATED iff mean(FDP) - alpha > 0.25*alpha + 0.005 + 6*SE, HELD iff mean(FDP) <= "
     "alpha + 3*SE, otherwise inconclusive (reported, does not fail). Non-trivial = replicate with >= 1 accepted "
     "target at alpha = 0.1; distinct = replicate seeds."
+    " Every fifth pipeline replicate models two collections of different size jointly (larger first or last); each collection is an observation."
 )
 ASSUMPTIONS = [
     "statistical decision: exchangeability holds by construction of the simulator only; false-alarm probability per cell < 1e-8 under the property",
@@ -75,14 +76,12 @@ def plan(seed, tier):
 MANDATORY_CLASSES = ["pipeline", "small", "coarse"]
 
 
-def simulate(rng, design, n_spectra, pi1):
-    if design == "paired":
-        tab = psm.psm_table(rng, n_spectra=n_spectra, paired=True, pi1=pi1, key_cols=("ExpMass",), n_info=int(rng.integers(1, 4)),
-                            n_noise=2, sep_strength=float(rng.choice([2.0, 3.0])), pep_pool=max(5, n_spectra // 6))
-    else:
-        tab = psm.psm_table(rng, n_spectra=n_spectra, mult_max=1, pi1=pi1, key_cols=("ExpMass",), n_info=int(rng.integers(1, 4)),
-                            n_noise=2, sep_strength=float(rng.choice([2.0, 3.0])), pep_pool=max(5, n_spectra // 6))
-    return tab
+def simulate(rng, design, n_spectra, pi1, file_index=0, n_info=None, sep=None):
+    n_info = int(rng.integers(1, 4)) if n_info is None else n_info
+    sep = float(rng.choice([2.0, 3.0])) if sep is None else sep
+    return psm.psm_table(rng, n_spectra=n_spectra, pi1=pi1, key_cols=("ExpMass",), n_info=n_info, n_noise=2, sep_strength=sep,
+                         pep_pool=max(5, n_spectra // 6), file_index=file_index,
+                         **(dict(paired=True) if design == "paired" else dict(mult_max=1)))
 
 
 ALPHAS_COARSE = [round(0.05 * 1.15 ** k, 4) for k in range(20)]   # 0.05 .. 0.71
@@ -112,31 +111,39 @@ def run_pipeline(case):
         n_spectra = int(rng.choice([300, 600, 1000, 1500]))
         pi1 = float(rng.choice([0.2, 0.4, 0.6]))
         with core.scratch("c04") as d:
-            tab = simulate(rng, case["design"], n_spectra, pi1)
-            path = psm.write_pin(tab, d / "t.pin")
+            # every fifth replicate models two collections jointly (different spectra, so different fold splits)
+            nfiles = 2 if r % 5 == 3 else 1
+            n_info, sep = int(rng.integers(1, 4)), float(rng.choice([2.0, 3.0]))
+            fsizes = [n_spectra, max(200, n_spectra // 2)][::-1 if r % 10 == 8 else 1]   # larger file first or last
+            tabs = [simulate(rng, case["design"], fsizes[fi], pi1, file_index=fi, n_info=n_info, sep=sep) for fi in range(nfiles)]
+            paths = [psm.write_pin(t, d / f"t{fi}.pin") for fi, t in enumerate(tabs)]
+            nrows = sum(len(t["df"]) for t in tabs)
             # every second replicate trains on a capped subset (another route by which held-out rows can leak)
-            cap = int(0.55 * len(tab["df"])) if r % 2 else None
+            cap = int(0.55 * nrows) if r % 2 else None
             # every third replicate predicts in several chunks with a short last one
-            sizes = {"CHUNK_SIZE_ROWS_PREDICTION": int(0.37 * len(tab["df"]))} if r % 3 == 2 else {}
+            sizes = {"CHUNK_SIZE_ROWS_PREDICTION": int(0.37 * len(tabs[0]["df"]))} if r % 3 == 2 else {}
             with core.chunk_sizes(**sizes):
                 # every fourth replicate trains / predicts with several workers under a perturbed task schedule
                 w = 3 if r % 4 == 1 else 1
-                out = pipeline.run_brew([path], learner=case["learner"], folds=case["folds"], seed=int(rng.integers(1 << 30)),
+                out = pipeline.run_brew(paths, learner=case["learner"], folds=case["folds"], seed=int(rng.integers(1 << 30)),
                                         test_fdr=0.05, train_fdr=0.05, max_iter=3, subset_max_train=cap, max_workers=w,
                                         delay=0.003 if w > 1 else 0.0, perturb=int(rng.integers(1 << 30)))
                 res.count("task_kinds_finished_out_of_order", out.get("sched_out_of_order", 0))
             res.count("replicates")
+            if nfiles > 1:
+                res.count("two_collection_replicates")
             if out["status"].startswith("crash"):
                 res.violate("crash", out["sig"], msg=out["error"]["msg"], design=case["design"], learner=case["learner"])
                 continue
             if out["status"] != "ok":
                 res.count("refused_replicates")
                 continue
-            bad, facts = cv.analyze(out["log"], [tab], case["folds"], cap=cap)
+            bad, facts = cv.analyze(out["log"], tabs, case["folds"], cap=cap)
             for kind, detail in bad[:2]:
                 res.violate("cv_" + kind, case["learner"], detail=detail, design=case["design"], folds=case["folds"])
+            prefixes = [f"c{fi}" for fi in range(nfiles)] if nfiles > 1 else None
             c = pipeline.run_confidence(out["psms"], out["scores"], d / "out", descs=out["descs"], decoys=True, rng=1,
-                                        peps_algorithm="kde_nnls")
+                                        peps_algorithm="kde_nnls", prefixes=prefixes)
             if not c.ok:
                 if c.explicit:
                     res.count("refused_replicates")
@@ -144,15 +151,18 @@ def run_pipeline(case):
                     res.count("confidence_failed_replicates")
                     res.count("confidence_failed:" + c.sig)
                 continue
-            files = pipeline.read_results(d / "out")
-            rec = {"rep": r, "n": n_spectra, "pi1": pi1}
-            for lvl in ("psms", "peptides"):
-                f = fdp_from_files(files, tab["truth"], lvl)
-                if f:
-                    rec[lvl] = {str(a): v for a, v in f.items()}
-            obs.append(rec)
-            if rec.get("psms", {}).get("0.1", (0, 0))[1] > 0:
-                nt += 1
+            allfiles = pipeline.read_results(d / "out")
+            for fi, tab in enumerate(tabs):
+                pre = f"c{fi}." if nfiles > 1 else ""
+                files = {k[len(pre):]: v for k, v in allfiles.items() if k.startswith(pre)}
+                rec = {"rep": r, "n": n_spectra, "pi1": pi1, "file": fi, "nfiles": nfiles}
+                for lvl in ("psms", "peptides"):
+                    f = fdp_from_files(files, tab["truth"], lvl)
+                    if f:
+                        rec[lvl] = {str(a): v for a, v in f.items()}
+                obs.append(rec)
+                if rec.get("psms", {}).get("0.1", (0, 0))[1] > 0:
+                    nt += 1
     res["obs"] = obs
     res["evals"] = len(case["reps"])
     res["nontrivial"] = nt > 0
